@@ -25,8 +25,8 @@ SPEC = {
              quick=dict(defines=["-DNCH=3"], unwind=6, unwindset=["fill_nondet.0:17", "memcmp.0:17"]), thorough=dict(defines=["-DNCH=4"], unwind=7, unwindset=["fill_nondet.0:17", "memcmp.0:17"], timeout=3000, mem_gb=16),
              bounds="n <= 3 / 4 chunks, first chunk has stored size 0"),
         dict(_c, name="h10c", function="h10c", replay="range", what="range string rendering incl. buffer growth, exact fit and the empty request",
-             quick=dict(defines=["-DNR=3", "-DRD=2", "-DV_BUF_SIZE=8", "-DV_FMT_EXACT_RANGE"], unwind=40, unwindset=["zck_get_range_char.0:8"], cbmc_extra=["--object-bits", "10"]),
-             thorough=dict(defines=["-DNR=3", "-DRD=3", "-DV_BUF_SIZE=16", "-DV_FMT_EXACT_RANGE"], unwind=40, unwindset=["zck_get_range_char.0:8"], cbmc_extra=["--object-bits", "10"], timeout=3000, mem_gb=16),
+             quick=dict(defines=["-DNR=3", "-DRD=2", "-DV_BUF_SIZE=8", "-DV_FMT_EXACT_RANGE"], unwind=40, unwindset=["zck_get_range_char.0:8"]),
+             thorough=dict(defines=["-DNR=3", "-DRD=3", "-DV_BUF_SIZE=16", "-DV_FMT_EXACT_RANGE"], unwind=40, unwindset=["zck_get_range_char.0:8"], timeout=3000, mem_gb=16),
              bounds="0..3 ranges, offsets < 100, BUF_SIZE=8 (quick); 0..3 ranges, offsets < 1000, BUF_SIZE=16 (thorough)"),
     ],
 }
